@@ -289,6 +289,10 @@ def finding_matches(entry, prop, failure):
             tags = failure.get("tags") or dig(failure.get("record", {}), "in.tags") or []
             if not all(t in tags for t in want):
                 return False
+        elif key == "panic_contains":
+            msg = dig(failure.get("record", {}), "out.panic") or failure.get("panic") or ""
+            if want not in msg:
+                return False
         elif key in ("op", "check", "stage"):
             got = failure.get(key)
             if isinstance(want, list):
